@@ -57,7 +57,7 @@ Fixpoint lookup_cfg (t : list (N * config)) (id : N) : config :=
 Definition image_of (term vterm vcand : N) (es : list entry) (pcommit : N) (snaps : list snapshot) : nstate :=
   mkNS term vterm (if vcand =? 0 then None else Some (vcand - 1))
        (log_store ∅ es) pcommit pcommit snaps
-       Follower 0 0 0 0 0 0 0 [] 0 [] 0 0 0 false [].
+       Follower 0 0 0 0 0 0 0 [] 0 [] 0 0 0 false [] (0, 0).
 
 (* ---------- encoding of observations ---------- *)
 Fixpoint insert_entry (x : entry) (l : list entry) : list entry :=
@@ -93,7 +93,7 @@ Definition enc_state (s : nstate) : list N :=
   ++ (let l := sorted_log (d_log s) in N.of_nat (length l) :: flat_map enc_entry l)
   ++ [d_pcommit s]
   ++ (let l := list_snaps (d_snaps s) in
-      N.of_nat (length l) :: flat_map (fun sn => [sn_idx sn; sn_term sn; sn_cfgidx sn; N.of_nat (length (sn_data sn))]) l).
+      N.of_nat (length l) :: flat_map (fun sn => [sn_idx sn; sn_term sn; sn_cfgidx sn; N.of_nat (length (sn_data sn))] ++ enc_config (sn_cfg sn)) l).
 
 (* ---------- crash cuts ---------- *)
 Definition is_durable (e : ev) : bool :=
@@ -133,7 +133,8 @@ Inductive nevent :=
 | NTimeoutNow
 | NElect
 | NRestart
-| NTimeoutDecision.
+| NTimeoutDecision
+| NSnapshot.        (* takeSnapshot (the snapshot goroutine) *)
 
 Definition dec_bool (n : N) : bool := n2b n.
 
@@ -168,6 +169,7 @@ Definition dec_event (l : list N) : option (nevent * N * list bool * list N) :=
   | 6 :: r => tail NElect r
   | 7 :: r => tail NRestart r
   | 8 :: r => tail NTimeoutDecision r
+  | 9 :: r => tail NSnapshot r
   | _ => None
   end.
 
@@ -233,6 +235,11 @@ Definition step_full (P : params) (r : nrun) (e : nevent) (cut : N) (fs : list b
            (fun x => OElect (fst x) (snd x))
            None s cut (elect_self P s fs)
   | Up s, NTimeoutDecision => (Up s, ONone, [10; follower_timeout_decision P s])
+  | Up s, NSnapshot =>
+    let '(fi, ft) := fsm_index s in
+    finish P (fun x : N => [x]) (fun _ => ONone)
+           (Some (mkSnap fi ft (v_committed s) (v_committedIdx s) (v_fsm s) true))
+           s cut (take_snapshot P s fs)
   end.
 
 Definition step_event (P : params) (r : nrun) (e : nevent) (cut : N) (fs : list bool) : nrun * list N :=
